@@ -157,6 +157,11 @@ func c09Program(s c09Site, place string, c string) *prog.Program {
 		"func local() int {\n" +
 		slot["localDoc"] + "\ttype L struct{ F int }" + slot["localTrail"] + "\n" +
 		"\tvar l L\n\tl.F = 1\n\tl.F++\n\tl.F += 2\n\t_ = L{}\n\t_ = new(L)\n\treturn l.F\n}\n\n" +
+		// the same comment on a function-local type that has the NAME of the package-level type T
+		"func local2() int {\n" +
+		slot["localDoc"] + "\ttype T struct{ F int }" + slot["localTrail"] + "\n" +
+		"\tvar l T\n\tl.F = 1\n\tl.F++\n\t_ = T{}\n\t_ = new(T)\n\treturn l.F\n}\n\n" +
+		"var _ = local2\n\n" +
 		"func useInD() int {\n" + slot["body"] +
 		"\tt := T{S: make([]int, 1)}\n\tt.F = 1\n\tt.F += 2\n\tt.F++\n\tt.S[0] = 1\n\tp := new(T)\n\tvar z T\n\t_ = z\n\treturn Helper() + p.Get() + t.Get() + local()\n}\n\n" +
 		"var _ = useInD\n" + slot["eof"]
